@@ -875,3 +875,71 @@ func ruleIPInfoFromPool(c *Ctx, rule string) {
 		}
 	}
 }
+
+// C06.R5 — on reload an allocation is attached to the pool whose subnet AND ranges contain the ip.
+func ruleReloadPoolMatch(c *Ctx, rule string) {
+	fn := c.MustFn(rule, fipPkg, "(*crdIpam).ConfigurePool")
+	if fn == nil {
+		return
+	}
+	rangeHas := guardEdges(fn, predCall("(*FloatingIPPool).Contains", nil))
+	n := 0
+	allInstrs(fn, func(in ssa.Instruction) {
+		nw, ok := in.(*ssa.Call)
+		if !ok || !nameMatch(calleeName(nw), fipPkg+".New") {
+			return
+		}
+		// the New call that rebuilds an allocated entry: its key argument comes from the listed object's Spec
+		if !pathEndsWith(nw.Call.Args[2], "Spec", "Key") {
+			return
+		}
+		n++
+		pool := nw.Call.Args[0]
+		okP := false
+		for _, e := range rangeHas {
+			iff := e.from.Instrs[len(e.from.Instrs)-1].(*ssa.If)
+			call := iff.Cond.(*ssa.Call)
+			if call.Call.Args[0] == pool {
+				okP = true
+			}
+		}
+		c.ob(rule, fn, "rebuilt allocation uses the pool whose ranges contain the ip", nw, okP && guardedBy(fn, nw, rangeHas), "New(pool, ..) reachable only through pool.Contains(ip) (range membership) for that same pool")
+	})
+	if n == 0 {
+		c.undecided(rule, fn, "rebuild of allocated entries", nil, "no New(.., ip.Spec.Key, ..) call found")
+	}
+}
+
+// C05.R6 / C09.R6 — lookup, store write and memory update of a mutator form one critical section.
+func ruleOneCriticalSection(c *Ctx, rule string) {
+	la := c.locks()
+	for _, fn := range ipamMethods(c) {
+		stores := calls(fn, storeWriters...)
+		if len(stores) == 0 || fn.Name() == "ConfigurePool" {
+			continue
+		}
+		if fn.Name() == "AllocateSpecificIP" {
+			c.exempt(rule, fn, "lookup and create in separate critical sections", nil, "AllocateSpecificIP (adoption of an ip a running pod already carries) looks up under RLock, creates without the lock and inserts under Lock; the store Create conflict arbitrates (C01.R3). Listed exception, single instance.")
+			continue
+		}
+		for _, s := range stores {
+			st := la.info[fn].before[s]
+			ok := st != nil && !st.top && st.held[cacheLockID] == modeW
+			h := "{}"
+			if st != nil {
+				h = st.String()
+			}
+			c.ob(rule, fn, shortCallee(s)+" inside the cacheLock critical section of its lookup", s, ok, "must-hold set at the store call: "+h)
+		}
+		// no explicit release inside the mutator: the lock is released only by the deferred unlock
+		nRel := 0
+		allInstrs(fn, func(in ssa.Instruction) {
+			if call, ok := in.(*ssa.Call); ok {
+				if op, ok := classifyLockCall(call); ok && op.kind == "rel" && op.lock == cacheLockID {
+					nRel++
+				}
+			}
+		})
+		c.ob(rule, fn, "cacheLock is released only at function exit", nil, nRel == 0, fmt.Sprintf("%d explicit Unlock/RUnlock of cacheLock inside the mutator (the table lookup, the store write and the memory update must not be separated)", nRel))
+	}
+}
